@@ -1,6 +1,7 @@
 """C04 -- retain_lines keeps surviving code on its original line.
 
-G: TLC enumerates marker layouts (spec/darklua/Layout.tla): template programs with redexes of every rule whose
+G: TLC model-checks the line discipline of the retain_lines generator (spec/darklua/TokenGen.tla: LineKept under the
+   precondition Pre, every item sequence of length <= 3) and enumerates marker layouts (spec/darklua/Layout.tla): template programs with redexes of every rule whose
    literal slots are rendered as 'L<line>', one statement per line, x every gap x {line feed, blank line, line
    comment, multi-line comment, ...} (pairs of gaps in the thorough tier).
 R: dlv text runs each layout through the real darklua with retain_lines and (a) subsets/orders of the default rules,
@@ -46,6 +47,9 @@ def configs(tier, rng):
 def run(tier):
     rep = Report(PID, tier, "exploration")
     rng = random.Random(vlib.seed())
+    # design level: the generator's line discipline (TokenGen.tla) keeps every line-carrying token on its line under Pre
+    d = tlc("darklua/TokenGen", cfg="mc/MC_TokenGen.cfg", workers=8, timeout=1800, xmx="8g")
+    tlc_ok(d, "TokenGen (LineKept under Pre)")
     g = tlc("mc/MC_Layout", workers=8, timeout=1800, env={"MODE": "single"}, xmx="8g")
     tlc_ok(g, "MC_Layout(single)")
     layouts = g.tagged("CASE")
@@ -103,6 +107,7 @@ def run(tier):
         "rule": "layout (TLC enumeration of Layout.tla: template x gap x gap kind) x rule pipeline; distinct = distinct (source, pipeline) pairs; every case has >= 20 markers in the input",
         "samples": [{"rules": cases[0]["rules"], "src": cases[0]["src"][:200]}, {"rules": cases[-1]["rules"], "src": cases[-1]["src"][:200]}],
         "states": st + res.distinct, "transitions": gen + res.generated,
+        "design_model_states (TokenGen!LineKept under Pre, all item sequences of length <= 3)": d.distinct,
         "layouts": len(layouts), "pipelines": len(cfgs) + 1, "markers_checked": nmarkers, "runs_failed_with_an_error (not judged)": skipped,
         "exhaustive": False,
     })
